@@ -249,10 +249,9 @@ class UnifiedRTFEncoder(EncodingStrategy):
 
         from ..figure import rtf_read_figure
 
-        if not document.rtf_figure or not document.rtf_figure.figures:
-            return ""
-
-        figs, formats = rtf_read_figure(document.rtf_figure.figures)
+        # A figure component without figures still yields a well-formed document
+        figures = document.rtf_figure.figures if document.rtf_figure else None
+        figs, formats = rtf_read_figure(figures or [])
         num = len(figs)
 
         # Pre-calculate shared elements
